@@ -1557,6 +1557,9 @@ class EdgeQLSourceGenerator(codegen.SourceGenerator):
             self.write(')')
         else:
             self._visit_CreateObject(node, 'ALIAS')
+            if not node.commands:
+                # Without `:=` the block is mandatory, even if empty.
+                self.write(' {}')
 
     def visit_AlterAlias(self, node: qlast.AlterAlias) -> None:
         self._visit_AlterObject(node, 'ALIAS')
